@@ -322,6 +322,7 @@ func (w *fsWallet) loadWalletFile(ctx context.Context, addr ethtypes.Address0xHe
 		password, err = os.ReadFile(passwordFilename)
 		if err != nil {
 			log.L(ctx).Debugf("Failed to read '%s' (password file): %s", passwordFilename, err)
+			password = nil // a failed read can still return a non-nil empty slice (e.g. the path is a directory)
 		} else if w.conf.Filenames.PasswordTrimSpace {
 			password = []byte(strings.TrimSpace(string(password)))
 		}
